@@ -5,9 +5,9 @@ import (
 	"encoding/json"
 	"strconv"
 
+	ddb2types "github.com/aws/aws-sdk-go-v2/service/dynamodb/types"
 	"github.com/aws/aws-sdk-go/aws"
 	ddb1 "github.com/aws/aws-sdk-go/service/dynamodb"
-	ddb2types "github.com/aws/aws-sdk-go-v2/service/dynamodb/types"
 
 	ae "github.com/godaddy/asherah/go/appencryption"
 	"github.com/godaddy/asherah/go/appencryption/pkg/persistence"
